@@ -208,10 +208,54 @@ theorem so3U_le_half_pi (x1 y1 z1 w1 x2 y2 z2 w2 : ℝ) :
   rw [so3DistUnclamped_real]
   exact Real.arccos_le_pi_div_two.mpr (abs_nonneg _)
 
-theorem so3U_pos {x1 y1 z1 w1 x2 y2 z2 w2 : ℝ}
+/-- (the unit hypotheses are not needed; kept for a uniform interface) -/
+theorem so3U_pos {x1 y1 z1 w1 x2 y2 z2 w2 : ℝ} (_h1 : unitQ x1 y1 z1 w1) (_h2 : unitQ x2 y2 z2 w2)
     (h : |x1*x2+y1*y2+z1*z2+w1*w2| < 1) : 0 < so3DistUnclamped x1 y1 z1 w1 x2 y2 z2 w2 := by
   rw [so3DistUnclamped_real]
   exact Real.arccos_pos.mpr h
+
+/-- identity of indiscernibles modulo the double cover: distance 0 iff `q = p` or `q = -p` -/
+theorem so3U_eq_zero_iff {x1 y1 z1 w1 x2 y2 z2 w2 : ℝ} (h1 : unitQ x1 y1 z1 w1)
+    (h2 : unitQ x2 y2 z2 w2) :
+    so3DistUnclamped x1 y1 z1 w1 x2 y2 z2 w2 = 0 ↔
+      (x2 = x1 ∧ y2 = y1 ∧ z2 = z1 ∧ w2 = w1) ∨ (x2 = -x1 ∧ y2 = -y1 ∧ z2 = -z1 ∧ w2 = -w1) := by
+  rw [so3DistUnclamped_real, Real.arccos_eq_zero]
+  have hle := dot_abs_le_one h1 h2
+  unfold unitQ at h1 h2
+  constructor
+  · intro h
+    have habs : |x1*x2+y1*y2+z1*z2+w1*w2| = 1 := le_antisymm hle h
+    rcases (abs_eq (by norm_num : (0:ℝ) ≤ 1)).mp habs with hd | hd
+    · left
+      have hx : (x2-x1)^2 = 0 := by
+        nlinarith [sq_nonneg (x2-x1), sq_nonneg (y2-y1), sq_nonneg (z2-z1), sq_nonneg (w2-w1)]
+      have hy : (y2-y1)^2 = 0 := by
+        nlinarith [sq_nonneg (x2-x1), sq_nonneg (y2-y1), sq_nonneg (z2-z1), sq_nonneg (w2-w1)]
+      have hz : (z2-z1)^2 = 0 := by
+        nlinarith [sq_nonneg (x2-x1), sq_nonneg (y2-y1), sq_nonneg (z2-z1), sq_nonneg (w2-w1)]
+      have hw : (w2-w1)^2 = 0 := by
+        nlinarith [sq_nonneg (x2-x1), sq_nonneg (y2-y1), sq_nonneg (z2-z1), sq_nonneg (w2-w1)]
+      exact ⟨sub_eq_zero.mp (pow_eq_zero_iff (by norm_num) |>.mp hx),
+        sub_eq_zero.mp (pow_eq_zero_iff (by norm_num) |>.mp hy),
+        sub_eq_zero.mp (pow_eq_zero_iff (by norm_num) |>.mp hz),
+        sub_eq_zero.mp (pow_eq_zero_iff (by norm_num) |>.mp hw)⟩
+    · right
+      have hx : (x2+x1)^2 = 0 := by
+        nlinarith [sq_nonneg (x2+x1), sq_nonneg (y2+y1), sq_nonneg (z2+z1), sq_nonneg (w2+w1)]
+      have hy : (y2+y1)^2 = 0 := by
+        nlinarith [sq_nonneg (x2+x1), sq_nonneg (y2+y1), sq_nonneg (z2+z1), sq_nonneg (w2+w1)]
+      have hz : (z2+z1)^2 = 0 := by
+        nlinarith [sq_nonneg (x2+x1), sq_nonneg (y2+y1), sq_nonneg (z2+z1), sq_nonneg (w2+w1)]
+      have hw : (w2+w1)^2 = 0 := by
+        nlinarith [sq_nonneg (x2+x1), sq_nonneg (y2+y1), sq_nonneg (z2+z1), sq_nonneg (w2+w1)]
+      exact ⟨eq_neg_of_add_eq_zero_left (pow_eq_zero_iff (by norm_num) |>.mp hx),
+        eq_neg_of_add_eq_zero_left (pow_eq_zero_iff (by norm_num) |>.mp hy),
+        eq_neg_of_add_eq_zero_left (pow_eq_zero_iff (by norm_num) |>.mp hz),
+        eq_neg_of_add_eq_zero_left (pow_eq_zero_iff (by norm_num) |>.mp hw)⟩
+  · rintro (⟨rfl, rfl, rfl, rfl⟩ | ⟨rfl, rfl, rfl, rfl⟩)
+    · rw [h1, abs_one]
+    · have : x1 * -x1 + y1 * -y1 + z1 * -z1 + w1 * -w1 = -1 := by linarith
+      rw [this, abs_neg, abs_one]
 
 theorem so3U_triangle {x1 y1 z1 w1 x2 y2 z2 w2 x3 y3 z3 w3 : ℝ}
     (h1 : unitQ x1 y1 z1 w1) (h2 : unitQ x2 y2 z2 w2) (h3 : unitQ x3 y3 z3 w3) :
@@ -220,5 +264,34 @@ theorem so3U_triangle {x1 y1 z1 w1 x2 y2 z2 w2 x3 y3 z3 w3 : ℝ}
   rw [so3DistUnclamped_real, so3DistUnclamped_real, so3DistUnclamped_real,
     ← qVec_inner, ← qVec_inner, ← qVec_inner]
   exact arccosAbs_triangle (qVec_norm h1) (qVec_norm h2) (qVec_norm h3)
+
+/-! ### how far the clamped function is from a metric -/
+theorem so3Dist_le_unclamped (x1 y1 z1 w1 x2 y2 z2 w2 : ℝ) :
+    so3Dist x1 y1 z1 w1 x2 y2 z2 w2 ≤ so3DistUnclamped x1 y1 z1 w1 x2 y2 z2 w2 := by
+  rw [so3Dist_real, so3DistUnclamped_real]
+  split_ifs
+  · exact Real.arccos_nonneg _
+  · exact le_refl _
+
+theorem so3U_le_clamped_add (x1 y1 z1 w1 x2 y2 z2 w2 : ℝ) :
+    so3DistUnclamped x1 y1 z1 w1 x2 y2 z2 w2 ≤
+      so3Dist x1 y1 z1 w1 x2 y2 z2 w2 + Real.arccos (1 - 1/10^9) := by
+  rw [so3Dist_real, so3DistUnclamped_real]
+  split_ifs with h
+  · rw [zero_add]; exact Real.arccos_le_arccos h.le
+  · have := Real.arccos_nonneg (1 - 1/10^9)
+    linarith
+
+/-- the triangle inequality holds for the clamped function up to `2·acos(1 - 1e-9)` (≈ 8.9e-5) -/
+theorem so3_triangle_partial {x1 y1 z1 w1 x2 y2 z2 w2 x3 y3 z3 w3 : ℝ}
+    (h1 : unitQ x1 y1 z1 w1) (h2 : unitQ x2 y2 z2 w2) (h3 : unitQ x3 y3 z3 w3) :
+    so3Dist x1 y1 z1 w1 x3 y3 z3 w3 ≤
+      so3Dist x1 y1 z1 w1 x2 y2 z2 w2 + so3Dist x2 y2 z2 w2 x3 y3 z3 w3 +
+        2 * Real.arccos (1 - 1/10^9) := by
+  have a := so3Dist_le_unclamped x1 y1 z1 w1 x3 y3 z3 w3
+  have b := so3U_triangle h1 h2 h3
+  have c := so3U_le_clamped_add x1 y1 z1 w1 x2 y2 z2 w2
+  have d := so3U_le_clamped_add x2 y2 z2 w2 x3 y3 z3 w3
+  linarith
 
 end OmplModel.SpaceDist
